@@ -269,6 +269,7 @@ def c17_rf2(run):
     rf_alloc.rf164(run)
     rf_alloc.rf181(run)
     rf_alloc.rf185(run)
+    rf_alloc.rf189(run)
     rf_proto.rf163(run)
     rf_proto.rf165(run)
     run.min_instances('RF78b', 20)
@@ -392,6 +393,7 @@ def c04_rf18(run):
     rf_inline.rf153(run)
     rf_inline.rf161(run)
     rf_fold.rf180(run)
+    rf_inline.rf190(run)
     rf_fold.rf100(run)
     rf_flow.rf71(run, units=('mir',))
     run.min_instances('RF71', 3)
@@ -459,6 +461,7 @@ def c14_rf16f(run):
     rf_proto.rf16m(run)
     rf_proto.rf162(run)
     rf_proto.rf171(run)
+    rf_proto.rf188(run)
 
 
 def c02_rf7a(run):
